@@ -28,7 +28,9 @@ unedited torrent.
 """
 
 import os
+import shutil
 import logging
+import tempfile
 
 import pyben
 
@@ -140,6 +142,18 @@ def edit_torrent(metafile: str, args: dict) -> dict:
 
     meta["info"] = _sort_keys(info)
     meta = _sort_keys(meta)
-    os.remove(metafile)
-    pyben.dump(meta, metafile)
+    # encode first, write to a temporary sibling, then swap it into place, so
+    # that the path never holds anything but a complete metafile.
+    encoded = pyben.dumps(meta)
+    folder = os.path.dirname(os.path.abspath(metafile))
+    fd, temp = tempfile.mkstemp(dir=folder, suffix=".tmp")
+    try:
+        with os.fdopen(fd, "wb") as tempfd:
+            tempfd.write(encoded)
+        shutil.copymode(metafile, temp)
+        os.replace(temp, metafile)
+    except BaseException:
+        if os.path.exists(temp):
+            os.remove(temp)
+        raise
     return meta
